@@ -389,9 +389,10 @@ pub fn generate(g: &mut Gen, thorough: bool) {
             ("w:def".to_string(), "helmert x=(5)".to_string()),
             ("w:both".to_string(), "helmert x=$x(5) y=$y(1)".to_string()),
         ];
-        for width in [10usize, 30, 61, 62, 63, 64, 65, 100, 130] {
-            for at in [0, width / 2, width] {
-                let mut args: Vec<String> = (0..width).map(|k| format!("u{k}={k}")).collect();
+        for width in [10usize, 30, 59, 60, 61, 62, 63, 64, 65, 66, 100, 126, 127, 128, 130] {
+            // (the names are kept sorted: names on either side of the one asked for)
+            for (at, prefix) in [(0, "u"), (width / 2, "zz"), (width, "zz")] {
+                let mut args: Vec<String> = (0..width).map(|k| format!("{prefix}{k}={k}")).collect();
                 args.insert(at, "x=9".to_string());
                 let args = args.join(" ");
                 emit(g, &res, &format!("w:ref {args}"), &Expect::Steps(vec![("helmert x=9".to_string(), false)]), "witness-wide-invocation", true);
@@ -400,7 +401,7 @@ pub fn generate(g: &mut Gen, thorough: bool) {
             }
         }
         for depth in [4usize, 16, 24, 32, 40] {
-            let mut res: Vec<(String, String)> = (0..depth).map(|k| (format!("d:l{k}"), format!("d:l{} x=$x a{k}=1 b{k}=2", k + 1))).collect();
+            let mut res: Vec<(String, String)> = (0..depth).map(|k| (format!("d:l{k}"), format!("d:l{} x=$x a{k}=1 z{k}=2", k + 1))).collect();
             res.push((format!("d:l{depth}"), "helmert x=$x(5)".to_string()));
             emit(g, &res, "d:l0 x=9", &Expect::Steps(vec![("helmert x=9".to_string(), false)]), "witness-deep-chain", true);
         }
